@@ -1,7 +1,8 @@
 """C03 - swaps never reduce pool value (one necessary clause: rounding direction on the constant-product path)."""
 import re
 from rules.common import (opmap, VariantEdge, where, flat_atoms, all_origins, exact_origins, ops_of, show)
-from base import CutPolicy
+from base import CutPolicy, PredFalse
+from rules.common import no_effects
 from absint import EMPTY, vfield
 
 EXPLANATION = ("static analysis (operator-class provenance inside compute_swap, constant-product arm assumed): the gross output is reached "
@@ -13,11 +14,40 @@ ASSUMPTIONS = ["the invariant inequality itself, round-trip non-profitability an
 TECHNIQUE = "static analysis: rounding-direction / operand-role classes on the constant-product swap formula"
 LEVEL_TEXT = "One necessary structural clause of the property, exhaustive over the CFG paths of compute_swap's constant-product arm."
 LEVEL_NOTE = "Thin: decides only the rounding/operand-role clause for constant product; the property as a whole is out of reach of static analysis."
-FLOORS = {"ROUND-cp-swap": 2}
+FLOORS = {"ROUND-cp-swap": 2, "CUT-distinct-assets": 2}
+
+
+def refs(v):
+    """origins a value stands for: its own, plus - for an index found by position()/find() - the operands of the match"""
+    out = set(all_origins(v))
+    t = v.fields.get("#may:pos")
+    if t is not None:
+        for a in t.atoms:
+            if isinstance(a[0], tuple) and a[0][0] == "pred" and a[0][1] in ("eq", "ne"):
+                for x in a[0][2:]:
+                    out |= all_origins(x)
+    return out
+
+
+def distinct_assets(W, chk, vp, offer, ask, lab):
+    """a swap of an asset for itself is refused before any effect (offer index == ask index would pay out of, and
+    deposit into, the same reserve while computing the price from it twice)"""
+    def test(pn, pa):
+        if pn != "eq" or len(pa) < 2:
+            return False
+        a, b = refs(pa[0]), refs(pa[1])
+        return (offer in a and ask in b) or (offer in b and ask in a)
+    cut = PredFalse("offer asset != ask asset", test)
+    from rules.C17 import pool_effects   # a route of zero hops only hands the caller's own funds back
+    no_effects(chk, W, "CUT-distinct-assets", "pool_manager", vp, [cut], lab, effects=pool_effects)
 
 
 def run(W, chk):
-    fid = "pool_manager::helpers::compute_swap"
+    from rules.swapcore import N
+    fid = N.bind(W).CS
+    distinct_assets(W, chk, ("Swap",), "info.funds[*].denom", "msg.Swap.ask_asset_denom", "")
+    distinct_assets(W, chk, ("ExecuteSwapOperations",), "msg.ExecuteSwapOperations.operations[*].MantraSwap.token_in_denom",
+                    "msg.ExecuteSwapOperations.operations[*].MantraSwap.token_out_denom", "")
     pol = CutPolicy([VariantEdge("assume ConstantProduct", r"^pool_info\.pool_type$", ["StableSwap"])])
     H = W.run_fn(fid, policy=pol)
     r = H.ret if H.ret is not None else EMPTY
@@ -26,7 +56,7 @@ def run(W, chk):
     res = {o: ops for o, ops in m.items() if o.startswith("pool_info.assets") or o.startswith("offer_asset")}
     allops = set().union(*m.values()) if m else set()
     ok = "pool_info.assets[*].amount" in m and "offer_asset.amount" in m and "div_ceil" not in allops and "div_floor" in allops and \
-        "div:r" in m["pool_info.assets[*].amount"] and "div:l" in m["offer_asset.amount"] and "wrap" not in allops and "kernel:calculate_stableswap_y" not in allops
+        "div:r" in m["pool_info.assets[*].amount"] and "div:l" in m["offer_asset.amount"] and not (allops & {"wrap", "sat", "max", "min"}) and "kernel:calculate_stableswap_y" not in allops
     chk.expect(ok, "ROUND-cp-swap", "gross return", "return = floor(ask * offer / (offer_pool + offer)) minus floor fees",
                "constant-product return computed as %s" % {k: sorted(v) for k, v in res.items()}, H.entry)
     for f in ("swap_fee_amount", "protocol_fee_amount", "burn_fee_amount", "extra_fees_amount"):
@@ -39,6 +69,17 @@ def run(W, chk):
     sm = opmap(vfield(S.ret if S.ret is not None else EMPTY, "return_amount"))
     k = any("kernel:calculate_stableswap_y" in ops for ops in sm.values())
     chk.notes.append("stableswap arm: output goes through the Newton kernel (%s): rounding direction undetermined, nothing claimed" % k)
+    # unit agreement: amounts of different decimals are brought to a common scale and back; every scale used is
+    # derived from the pool's own asset decimals (a constant scale is exact only for one decimals mix)
+    fa = S.calls(r"cosmwasm_std::Decimal256::from_atomics$")
+    if not fa:
+        chk.skip("UNIT-precision", "stableswap arm", "no Decimal256::from_atomics scaling found on the stableswap arm (normalisation written differently)")
+    for i, e in enumerate(fa):
+        o = all_origins(e.extra["dargs"][1])
+        pm = opmap(e.extra["dargs"][1])
+        ops = set().union(*pm.values()) if pm else set()
+        chk.expect(bool(o) and all(x.endswith("asset_decimals[*]") for x in o) and ops <= {"max", "sub", "sub:l", "sub:r"}, "UNIT-precision", "scale#%d" % i,
+                   "scale = an asset's decimals, or max decimals - an asset's decimals", "decimal scale derived from %s" % {k: sorted(v) for k, v in pm.items()}, where(e))
     sub_checked = not any("wrap" in ops or "sat" in ops for o, ops in sm.items() if o.startswith("pool_info.assets"))
     chk.expect(sub_checked, "ARITH-stableswap-output", "return_amount", "stableswap output = reserve - y by checked subtraction (cannot exceed the reserve)",
                "stableswap output uses saturating/wrapping arithmetic on the reserve", S.entry)
